@@ -36,7 +36,7 @@ namespace {
 struct Cover {
     uint64_t concurrentSubmits = 0, startFailuresInjected = 0, expiringPrograms = 0, updates = 0;
     uint64_t programs = 0, ops = 0, submitted = 0, ran = 0, dropped = 0, stops = 0, clears = 0, drains = 0, restarts = 0, closures = 0;
-    uint64_t stopsWithRunningTask = 0, clearsWithRunningTask = 0, stopsWithWorkerInPreBlock = 0, singleWorkerPrograms = 0, hugeMaximumPrograms = 0, maxWorkersSeen = 0, nontrivialCases = 0;
+    uint64_t stopsWithRunningTask = 0, clearsWithRunningTask = 0, stopsWithWorkerInPreBlock = 0, singleWorkerPrograms = 0, hugeMaximumPrograms = 0, programsNextToASecondPool = 0, maxWorkersSeen = 0, nontrivialCases = 0;
     std::vector<uint64_t> fps;
     std::vector<std::string> samples;
 } C;
@@ -152,6 +152,7 @@ struct Program {
     ThreadPool *pool = nullptr;
     rt::Rng rng;
     int maxThreads = 1;
+    int sideWorkers = 0;               // idle workers of a second pool that lives next to the one under test
     int nTasks = 0;
     int segment = 0;
     int drainedUpTo = 0;            // tasks [0, drainedUpTo) have been accounted for by a drain/clear/stop
@@ -307,6 +308,10 @@ struct Program {
         // post-conditions
         if (pool->getThreadCount() != 0) fail("C08", "workers-after-stop", "stop", "getThreadCount() = " + std::to_string(pool->getThreadCount()) + " after stop() returned");
         if (pool->isRunning()) fail("C08", "running-after-stop", "stop", "isRunning() is true after stop()");
+        // "after all worker threads have exited": a worker whose start routine has not returned yet (or that is still on its
+        // way out) when stop() is back was not waited for
+        int alive = spy::unfinishedThreadsWithRole(-1) - sideWorkers;
+        if (alive != 0) fail("C08", "worker-thread-alive-after-stop", "stop", std::to_string(alive) + " worker thread(s) of the pool still exist after stop() returned");
         if (pool->getActiveThreadCount() != 0) fail("C08", "workers-after-stop", "stop", "getActiveThreadCount() = " + std::to_string(pool->getActiveThreadCount()) + " after stop() returned");
         if (gRunningNow.load() != 0) fail("C08", "task-running-after-stop", "stop", std::to_string(gRunningNow.load()) + " task(s) are running after stop() returned");
         for (int i = 0; i < nTasks && !gCaseFailed; ++i) {
@@ -391,6 +396,18 @@ struct Program {
         // "every maximum thread count >= 1": now and then a huge one (the number of workers is still bounded by the tasks)
         if (rng.chance(60)) { maxThreads = std::vector<int>{255, 256, 65535, 65536, 65537, 131072, 1 << 20, 1 << 24, 0x7fffffff}[rng.below(9)]; ++C.hugeMaximumPrograms; }
         if (maxThreads == 1) ++C.singleWorkerPrograms;
+        // 15% of the programs run next to a second pool that has an idle worker of its own: pools share nothing
+        ThreadPool *side = nullptr;
+        if (rng.chance(150)) {
+            side = new ThreadPool();
+            side->setExpiryTimeout(-1);
+            side->setMaxThreadCount(2);
+            std::atomic<int> ran{0};
+            side->start([&ran]() { ran.fetch_add(1); });
+            while (!ran.load()) sched_yield();
+            sideWorkers = side->getThreadCount();
+            ++C.programsNextToASecondPool;
+        }
         pool = new ThreadPool();
         pool->setExpiryTimeout(-1);     // non-expiring workers
         pool->setMaxThreadCount(maxThreads);
@@ -439,6 +456,7 @@ struct Program {
         if (!gCaseFailed) finalChecks();
         spy::disableDelays();
         if (!gCaseFailed) delete pool;   // all workers are gone after stop()
+        if (side && !gCaseFailed) { side->stop(); delete side; }
     }
 };
 
@@ -470,8 +488,8 @@ int main(int argc, char **argv) {
         gFinishedEvents.store(0);
         spy::Delays d;
         int profile = (int) rng.below(4);
-        if (profile == 1) { d.condEntry = 500; d.maxUs = 200; }
-        else if (profile == 2) { d.condEntry = 250; d.afterWake = 200; d.beforeLock = 80; d.afterUnlock = 80; d.beforeNotify = 150; d.threadStart = 300; d.afterCreate = 300; d.maxUs = 120; d.spurious = 100; d.threadStartMaxUs = 500; }
+        if (profile == 1) { d.condEntry = 500; d.maxUs = 200; d.threadExit = 300; d.threadStartMaxUs = 300; }
+        else if (profile == 2) { d.condEntry = 250; d.afterWake = 200; d.beforeLock = 80; d.afterUnlock = 80; d.beforeNotify = 150; d.threadStart = 300; d.afterCreate = 300; d.maxUs = 120; d.spurious = 100; d.threadStartMaxUs = 500; d.threadExit = 300; }
         else if (profile == 3) { d.condEntry = 900; d.maxUs = 500; d.beforeNotify = 300; }
         int cpus = rng.chance(300) ? 1 : rng.chance(300) ? 2 : 0;
         spy::pinCpus(cpus, (int) rt::optInt("cpubase", 0));
@@ -505,7 +523,7 @@ int main(int argc, char **argv) {
     rt::finish(rt::Json().kv("engine", "h_pool").kv("programs", C.programs).kv("ops", C.ops).kv("tasksSubmitted", C.submitted).kv("tasksRan", C.ran)
                    .kv("tasksDropped", C.dropped).kv("closureTasks", C.closures).kv("stops", C.stops).kv("clears", C.clears).kv("drains", C.drains)
                    .kv("restarts", C.restarts).kv("concurrentSubmitBursts", C.concurrentSubmits).kv("threadCreationFailuresInjected", C.startFailuresInjected).kv("programsWithExpiringWorkers", C.expiringPrograms).kv("updateCalls", C.updates).kv("stopsWithRunningTask", C.stopsWithRunningTask).kv("clearsWithRunningTask", C.clearsWithRunningTask)
-                   .kv("stopsWithWorkerInPreBlockWindow", C.stopsWithWorkerInPreBlock).kv("singleWorkerPrograms", C.singleWorkerPrograms).kv("hugeMaximumPrograms", C.hugeMaximumPrograms)
+                   .kv("stopsWithWorkerInPreBlockWindow", C.stopsWithWorkerInPreBlock).kv("singleWorkerPrograms", C.singleWorkerPrograms).kv("hugeMaximumPrograms", C.hugeMaximumPrograms).kv("programsNextToASecondPool", C.programsNextToASecondPool)
                    .kv("maxWorkersSeen", C.maxWorkersSeen).kv("nontrivialCases", C.nontrivialCases)
                    .kv("delaysCondEntry", k.condEntry.load()).kv("delaysAfterWake", k.afterWake.load()).kv("delaysOther", k.beforeLock.load() + k.afterUnlock.load() + k.beforeNotify.load() + k.threadStart.load())
                    .kv("workerThreadsCreated", k.creates.load()).kv("poolCondWaits", k.watchedCondWaits.load())
